@@ -665,11 +665,10 @@ class Prefix:
         name: Optional[str] = None,
         symbol: Optional[str] = None,
     ) -> "Prefix":
-        if base != 0 and exponent == 0:
-            return IdentityPrefix
-
         key = (base, exponent)
         existing = cls._known.get(key)
+        if base != 0 and exponent == 0:
+            existing = IdentityPrefix
 
         # a name or symbol belongs to one prefix, and a prefix has one name and symbol;
         # check before anything is interned so that a refused declaration changes nothing
